@@ -61,9 +61,78 @@ def sweep_decoders(ctx, part, nparts):
     ctx.cls("decoders_part")
 
 
+def run_blob(ctx, c):
+    """blob.h as a stateful API: create / fill / resize / copy / wipe / close with sizes around the page arithmetic of blob.c, with the
+    library's own page size (asanpg) and with exact-size blobs (asan, hook).  Oracle: blob.h (zero-filled on creation and extension, content
+    kept, sizes reported) + ASan on every allocation the blob functions make."""
+    from harness import Fail
+    from gens import expand
+    x = ctx.x
+    NULL = 0
+
+    def content(p, n):
+        if not n:
+            return b""
+        b = x.out(n)
+        x.call("memCopy", b, p, n, ret="v")
+        return b.read()
+    sizes = [max(0, 1024 * k + d) for k, d in c["sizes"]]
+    p = NULL
+    model = b""
+    q = NULL
+    for i, s in enumerate(sizes):
+        op = c["ops"][i % len(c["ops"])]
+        if p == NULL:
+            p = x.call("blobCreate", s, ret="w")
+            model = bytes(s)
+            if (p == NULL) != (s == 0):
+                raise Fail("blobCreate(%d) returned %s" % (s, "NULL" if p == NULL else "a blob"))
+        else:
+            p2 = x.call("blobResize", p, s, ret="w")
+            if s == 0:
+                if p2 != NULL:
+                    raise Fail("blobResize(blob, 0) returned a blob")
+            elif p2 == NULL:
+                raise Fail("blobResize(blob, %d) failed" % s)
+            elif s == len(model) and p2 != p:
+                raise Fail("blobResize to the same size %d changed the handle" % s)
+            p = p2
+            model = (model + bytes(s))[:s]
+        if p != NULL:
+            if not x.call("blobIsValid", p):
+                raise Fail("blobIsValid is FALSE for a live blob of %d octets" % s)
+            if x.call("blobSize", p, ret="z") != s:
+                raise Fail("blobSize = %d after setting the size to %d" % (x.call("blobSize", p, ret="z"), s))
+            got = content(p, s)
+            if got != model:
+                j = next(k for k in range(s) if got[k] != model[k])
+                raise Fail("blob content after resizing through %s differs from 'kept content, zero extension' at octet %d of %d" % (sizes[:i + 1], j, s))
+            if op == "fill":
+                model = expand(c["seed"] + "%d" % i, s)
+                x.call("memCopy", p, x.buf(model), s, ret="v")
+            elif op == "copy":
+                q = x.call("blobCopy", q, p, ret="w")
+                if q == NULL or x.call("blobSize", q, ret="z") != s or content(q, s) != model or not x.call("blobEq", q, p) or x.call("blobCmp", q, p, ret="si") != 0:
+                    raise Fail("blobCopy / blobEq / blobCmp disagree for a blob of %d octets" % s)
+            elif op == "wipe":
+                x.call("blobWipe", p, ret="v")
+                model = content(p, s)
+        ctx.cls("blob_%s" % ("pageedge" if s % 1024 in (0, 1, 1015, 1016, 1017, 1023) or 1000 < s % 1024 else "mid"))
+    if p != NULL:
+        x.call("blobClose", p, ret="v")
+    if q != NULL:
+        x.call("blobClose", q, ret="v")
+    ctx.nontrivial("blob", tuple((k, d) for k, d in c["sizes"][:4]), tuple(c["ops"][:3]))
+    ctx.sample(c)
+
+
 def tests(tier):
     from props import c01, c02, c03, c05, c06, c10, c11, c13
-    out = [Sweep("decoders", sweep_decoders, 16, ("asan",))]
+    from harness import st
+    s_blob = st.fixed_dictionaries({"seed": st.binary(min_size=1, max_size=3).map(bytes.hex),
+                                    "sizes": st.lists(st.tuples(st.integers(0, 4), st.one_of(st.integers(-24, 24), st.integers(0, 1023), st.sampled_from([1000, 1008, 1015, 1016, 1017, 1020, 1023]))).map(list), min_size=2, max_size=8),
+                                    "ops": st.lists(st.sampled_from(["fill", "fill", "copy", "wipe", "none"]), min_size=1, max_size=4)})
+    out = [Sweep("decoders", sweep_decoders, 16, ("asan",)), Test("blob", s_blob, run_blob, {"quick": 3000, "thorough": 60000}, ("asanpg", "asan"))]
 
     def take(mod, pfx, names, cfgs, scale):
         for t in getattr(mod, "own_tests", mod.tests)(tier):
@@ -82,7 +151,7 @@ def tests(tier):
     for name in ("c04", "c16", "c17", "c12"):
         try:
             mod = __import__("props." + name, fromlist=["x"])
-            take(mod, name, None, ("msan",), 0.08)
+            take(mod, name, None, ("msan", "asan"), 0.1)      # asan: exact-size message / output buffers of the protocol, signature and token layers
         except Exception:
             pass
     return out
